@@ -6,6 +6,7 @@ only); the expected line is: IPv6 tokens replaced by the canonical text of their
 IPv4 tokens likewise (mask-shaped values verbatim), every other character unchanged.  Images
 come from separately constructed reference anonymizers via the integer API."""
 import io
+import ipaddress
 import itertools
 import re
 
@@ -46,9 +47,9 @@ def bounds(tier, seed):
 
 
 class Ref(object):
-    def __init__(self, salt):
-        self.a4 = ipdom.make_v4(["md5", salt], 0, None, None)
-        self.a6 = ipdom.make_v6(["md5", salt], 0)
+    def __init__(self, salt, b4=0, b6=0, prefixes=None):
+        self.a4 = ipdom.make_v4(["md5", salt], b4, prefixes, None)
+        self.a6 = ipdom.make_v6(["md5", salt], b6)
         self.c4, self.c6 = {}, {}
 
     def r4(self, v, text):
@@ -81,13 +82,13 @@ def shape(line):
     return s[:60]
 
 
-def run_lines(salt, lines):
+def run_lines(salt, lines, b4=0, b6=0, prefixes=None):
     """Push lines (without terminator) through the real FileAnonymizer; returns outputs or an
     exception marker per line (a failing line is isolated by re-running line by line)."""
     from netconan.anonymize_files import FileAnonymizer
 
-    fa = FileAnonymizer(anon_pwd=False, anon_ip=True, salt=salt, preserve_suffix_v4=0,
-                        preserve_suffix_v6=0)
+    fa = FileAnonymizer(anon_pwd=False, anon_ip=True, salt=salt, preserve_suffix_v4=b4,
+                        preserve_suffix_v6=b6, preserve_prefixes=None if prefixes is None else list(prefixes))
     text = "".join(ln + "\n" for ln in lines)
     try:
         out = io.StringIO()
@@ -112,7 +113,7 @@ def run_lines(salt, lines):
 
 
 def judge(res, salt, lines, ref, replay_base):
-    got = run_lines(salt, lines)
+    got = run_lines(salt, lines, replay_base.get("b4", 0), replay_base.get("b6", 0), replay_base.get("prefixes"))
     for ln, g in zip(lines, got):
         res.evals += 1
         t6 = refs.v6_tokens(ln)
@@ -157,7 +158,7 @@ class LinesPart(Part):
         res = Res()
         lines = case["lines"] if "lines" in case else self.gen(case)
         for salt in ([case["salt"]] if "salt" in case else self.salts):
-            ref = Ref(salt)
+            ref = Ref(salt, case.get("b4", 0), case.get("b6", 0), case.get("prefixes"))
             base = {k: v for k, v in case.items() if k != "lines"}
             base["salt"] = salt
             for block in chunks(lines, 2000):
@@ -349,6 +350,30 @@ class Columns(LinesPart):
         return lines
 
 
+class FixedPoints(LinesPart):
+    name = "addresses_that_map_to_themselves"
+    desc = "option sets under which many or all addresses are their own image (all host bits kept, host prefixes): every spelling is still replaced by the canonical text"
+
+    def cases(self):
+        return [{"b4": 32, "b6": 128}, {"b4": 8, "b6": 112, "prefixes": ["10.1.2.0/24", "172.20.5.0/24", "200.7.6.5/32"]},
+                {"b4": 0, "b6": 127, "prefixes": ["10.1.2.3/32", "200.7.6.5/32", "172.20.5.17/32"]},
+                {"b4": 31, "b6": 64}]
+
+    def gen(self, case):
+        lines = []
+        v4 = ["10.1.2.3", "172.20.5.17", "200.7.6.5", "192.168.55.216", "8.8.4.4", "255.255.255.0", "0.0.0.0"]
+        for t in v4:
+            a = refs.v4_token_value(t)
+            for sp in refs.v4_spellings(a):
+                lines += [sp, " ip address %s/24 x" % sp, "(%s)" % sp]
+        v6 = ["2001:db8::1", "fe80::a:b", "::1", "::", "::ffff:10.1.2.3", "1:2:3:4:5:6:7:8", "2001:db8:0:0:1::"]
+        for t in v6:
+            a = int(ipaddress.IPv6Address(t))
+            for sp in refs.v6_spellings(a):
+                lines += [sp, " ipv6 address %s/64 x" % sp, "[%s]" % sp]
+        return lines
+
+
 def parts(tier, seed):
-    return [V4Tokens(tier, seed), V6Tokens(tier, seed), V6Tails(tier, seed), Contexts(tier, seed),
+    return [FixedPoints(tier, seed), V4Tokens(tier, seed), V6Tokens(tier, seed), V6Tails(tier, seed), Contexts(tier, seed),
             Boundary(tier, seed), LongLines(tier, seed), Columns(tier, seed)]
